@@ -101,3 +101,109 @@ Proof.
     + intros Y. rewrite Hf. cbn [app]. rewrite scan_cons_plain; try lia; try (intros _; reflexivity).
       rewrite scan_neutral by assumption. reflexivity.
 Qed.
+
+Definition same_head (a b : bytes) : Prop := exists c t t', a = c :: t /\ b = c :: t'.
+
+Lemma same_head_app b q X : b <> [] -> same_head (b ++ q) (b ++ X).
+Proof. destruct b as [|c b]; [congruence|]. intros _. exists c, (b ++ q), (b ++ X). split; reflexivity. Qed.
+
+Lemma Range_split q lo hi q1 : Range q lo hi q1 ->
+  exists b, q = b ++ q1 /\ b <> []
+    /\ (forall Y, same_head q1 Y -> Range (b ++ Y) lo hi Y)
+    /\ (forall Y, scan (b ++ Y) true = (b ++ fst (scan Y true), snd (scan Y true))).
+Proof.
+  intros HR. inversion HR as [q_ lo_ qa Hr Hd|q_ lo_ qb hi_ q1_ Hr1 Hr2]; subst.
+  - destruct (rchar_split _ _ _ Hr) as (b & Hq & Hb & Hrc & Hsc).
+    exists b. repeat split; try assumption.
+    intros Y (c & t & t' & E1 & E2). apply Range_one; [apply Hrc|]. subst. simpl in *. exact Hd.
+  - destruct (rchar_split _ _ _ Hr1) as (b1 & Hq1 & Hb1 & Hrc1 & Hsc1).
+    destruct (rchar_split _ _ _ Hr2) as (b2 & Hq2 & Hb2 & Hrc2 & Hsc2).
+    exists (b1 ++ ch_dash :: b2). split; [rewrite <- app_assoc; cbn [app]; rewrite <- Hq2; exact Hq1|].
+    split; [destruct b1; [congruence|discriminate]|]. split.
+    + intros Y _. rewrite <- app_assoc. cbn [app]. eapply Range_two; [apply Hrc1|apply Hrc2].
+    + intros Y. rewrite <- app_assoc. cbn [app]. rewrite Hsc1.
+      rewrite scan_cons_plain by (unfold ch_dash, ch_bsl, ch_rbr, ch_star, ch_lbr; lia).
+      rewrite Hsc2. cbn [fst snd]. rewrite <- app_assoc. reflexivity.
+Qed.
+
+Lemma RangesTail_split q rs q' : RangesTail q rs q' ->
+  exists b, q = b ++ q' /\ b <> []
+    /\ (forall X, RangesTail (b ++ X) rs X)
+    /\ (forall X, scan (b ++ X) true = (b ++ fst (scan X false), snd (scan X false))).
+Proof.
+  induction 1 as [q'|q lo hi q1 rs q' HR HT IH].
+  - exists [ch_rbr]. repeat split; [discriminate|intros X; apply RT_close|].
+    intros X. cbn. destruct (scan X false); reflexivity.
+  - destruct IH as (b' & Hq1 & Hb' & HT' & Hs').
+    destruct (Range_split _ _ _ _ HR) as (b0 & Hq & Hb0 & HR' & Hs0).
+    exists (b0 ++ b'). split; [rewrite <- app_assoc, <- Hq1; exact Hq|].
+    split; [destruct b0; [congruence|discriminate]|]. split.
+    + intros X. rewrite <- app_assoc. eapply RT_more; [|apply HT'].
+      apply HR'. rewrite Hq1. apply same_head_app. exact Hb'.
+    + intros X. rewrite <- app_assoc, Hs0, Hs'. cbn [fst snd]. rewrite <- app_assoc. reflexivity.
+Qed.
+
+Lemma Parses_app_star c1 i1 : Parses c1 i1 -> no_star i1 -> forall p2 t2, Parses p2 t2 -> True.
+Proof. trivial. Qed.
+
+(** ** scanChunk on a well-formed pattern: the chunk is the star-free prefix of the grammar *)
+Lemma scan_parses p ts : Parses p ts ->
+  exists chunk rest items ts',
+    scan p false = (chunk, rest) /\ p = chunk ++ rest /\ Parses chunk items /\ no_star items
+    /\ Parses rest ts' /\ ts = items ++ ts'
+    /\ (rest = [] /\ ts' = [] \/ exists r t2, rest = ch_star :: r /\ ts' = TStar :: t2).
+Proof.
+  induction 1 as [|p ts HP IH|p ts HP IH|c p ts HP IH|c p ts Hm HP IH|q neg q0 lo hi q1 rs q' ts Hs HR HT HP IH].
+  - exists [], [], [], []. split; [reflexivity|]. split; [reflexivity|]. split; [constructor|]. split; [constructor|].
+    split; [constructor|]. split; [reflexivity|]. left; split; reflexivity.
+  - exists [], (ch_star :: p), [], (TStar :: ts). split; [reflexivity|]. split; [reflexivity|]. split; [constructor|].
+    split; [constructor|]. split; [apply P_star; exact HP|]. split; [reflexivity|].
+    right. exists p, ts. split; reflexivity.
+  - destruct IH as (ch & rest & it & ts' & Hsc & Hp & Hpc & Hn & Hpr & Hts & Hend).
+    exists (ch_qm :: ch), rest, (TAny :: it), ts'.
+    rewrite scan_cons_plain by (unfold ch_qm, ch_bsl, ch_rbr, ch_star, ch_lbr; lia). rewrite Hsc. cbn [fst snd].
+    repeat split; try assumption; [rewrite Hp; reflexivity|apply P_any; exact Hpc|constructor; [discriminate|exact Hn]|rewrite Hts; reflexivity].
+  - destruct IH as (ch & rest & it & ts' & Hsc & Hp & Hpc & Hn & Hpr & Hts & Hend).
+    exists (ch_bsl :: c :: ch), rest, (TLit c :: it), ts'.
+    cbn [scan]. replace (ch_bsl =? ch_bsl) with true by reflexivity. rewrite Hsc.
+    repeat split; try assumption; [rewrite Hp; reflexivity|apply P_esc; exact Hpc|constructor; [discriminate|exact Hn]|rewrite Hts; reflexivity].
+  - destruct IH as (ch & rest & it & ts' & Hsc & Hp & Hpc & Hn & Hpr & Hts & Hend).
+    exists (c :: ch), rest, (TLit c :: it), ts'. unfold is_meta in Hm.
+    assert (Hscan : scan (c :: p) false = (c :: fst (scan p false), snd (scan p false))).
+    { destruct (c =? ch_rbr) eqn:Er.
+      - assert (Hc : c = ch_rbr) by lia. rewrite Hc. cbn. destruct (scan p false); reflexivity.
+      - apply scan_cons_plain; lia. }
+    rewrite Hscan, Hsc. cbn [fst snd].
+    repeat split; try assumption; [rewrite Hp; reflexivity|apply P_lit; [unfold is_meta; lia|exact Hpc]|constructor; [discriminate|exact Hn]|rewrite Hts; reflexivity].
+  - destruct IH as (ch & rest & it & ts' & Hsc & Hp & Hpc & Hn & Hpr & Hts & Hend).
+    destruct (RangesTail_split _ _ _ HT) as (b' & Hq1 & Hb' & HT' & Hs').
+    destruct (Range_split _ _ _ _ HR) as (b0 & Hq0 & Hb0 & HR' & Hs0).
+    (* q = pre ++ q0, pre = "^" or empty *)
+    assert (Hpre : exists pre, q = pre ++ q0 /\ (forall Y, same_head q0 Y -> strip_caret (pre ++ Y) = (neg, Y))
+                        /\ (forall Y, scan (pre ++ Y) true = (pre ++ fst (scan Y true), snd (scan Y true)))).
+    { unfold strip_caret in Hs. destruct q as [|c t].
+      - exfalso. injection Hs as _ Hq0'. rewrite <- Hq0' in Hq0. destruct b0; [congruence|discriminate Hq0].
+      - destruct (c =? ch_caret) eqn:Ec; injection Hs as Hneg Hq0'.
+        + exists [c]. split; [rewrite Hq0'; reflexivity|]. split.
+          * intros Y _. cbn [app]. unfold strip_caret. rewrite Ec, Hneg. reflexivity.
+          * intros Y. cbn [app]. apply scan_cons_plain; unfold ch_caret, ch_bsl, ch_rbr, ch_star, ch_lbr in *; lia.
+        + exists []. split; [rewrite Hq0'; reflexivity|]. split.
+          * intros Y (c0 & t0 & t0' & E1 & E2). rewrite <- Hq0' in E1. injection E1 as Ec0 _. rewrite E2, <- Ec0.
+            cbn [app]. unfold strip_caret. rewrite Ec, Hneg. reflexivity.
+          * intros Y. cbn [app]. destruct (scan Y true); reflexivity. }
+    destruct Hpre as (pre & Hq & Hstrip & Hspre).
+    exists (ch_lbr :: pre ++ b0 ++ b' ++ ch), rest, (TClass neg ((lo, hi) :: rs) :: it), ts'.
+    assert (Hqq : q = pre ++ b0 ++ b' ++ q') by (rewrite Hq, Hq0, Hq1; reflexivity).
+    split.
+    { cbn [scan]. replace (ch_lbr =? ch_bsl) with false by reflexivity. replace (ch_lbr =? ch_lbr) with true by reflexivity.
+      rewrite Hqq, Hspre, Hs0, Hs', Hsc. cbn [fst snd]. reflexivity. }
+    split; [rewrite Hqq, Hp; cbn [app]; rewrite <- !app_assoc; reflexivity|].
+    split.
+    { eapply P_class with (q0 := b0 ++ b' ++ ch) (q1 := b' ++ ch) (q' := ch).
+      - apply Hstrip. rewrite Hq0. apply same_head_app. exact Hb0.
+      - apply HR'. rewrite Hq1. apply same_head_app. exact Hb'.
+      - apply HT'.
+      - exact Hpc. }
+    split; [constructor; [discriminate|exact Hn]|].
+    split; [exact Hpr|]. split; [rewrite Hts; reflexivity|exact Hend].
+Qed.
